@@ -138,6 +138,16 @@ class Emitter:
         walk({k: v for k, v in vocab.items() if k in ("enums", "structs", "consts", "sinks", "fns", "methods", "features", "config_param", "reserved", "iter_conv")})
         self.reserved = words
 
+    # the vocabulary key `result` has two forms: {err: <coq type>} -- io::Result<T> as the sum T + err
+    # (inl / inr); {coq, ok, err} -- a two-constructor inductive
+    def res_sum(self):
+        r = self.v.get("result")
+        return bool(r) and "coq" not in r
+
+    def res_ind(self):
+        r = self.v.get("result")
+        return bool(r) and "coq" in r
+
     # -- names ---------------------------------------------------------------
     def fresh(self, base):
         base = base.strip("_") or "x"
@@ -181,9 +191,12 @@ class Emitter:
                 return ("list", self.ty_of_ast(ty.args[0]))
             if name == "Box" and ty.args:
                 return self.ty_of_ast(ty.args[0])     # Box<T> is T (ownership is not modelled)
-            if name == "Result" and ty.args and self.v.get("result"):
+            if name == "Result" and ty.args and self.res_sum():
                 # io::Result<T> (vocabulary key `result`): the sum  T + <error type>
                 return ("res", self.ty_of_ast(ty.args[0]))
+            if name == "Result" and self.res_ind() and ty.args and len(ty.args) == 2:
+                # optional vocabulary key `result`: {coq, ok, err} -- a two-constructor inductive
+                return ("result", self.ty_of_ast(ty.args[0]), self.ty_of_ast(ty.args[1]))
             if name in self.v.get("enums", {}):
                 return ("enum", name)
             if name in self.v.get("structs", {}):
@@ -215,6 +228,8 @@ class Emitter:
             return self.v["sinks"][t[1]]["coq"]
         if k == "res":
             return "(%s + %s)" % (self.coq_ty(t[1]), self.v["result"]["err"])
+        if k == "result" and self.res_ind():
+            return "(%s %s %s)" % (self.v["result"]["coq"], self.coq_ty(t[1]), self.coq_ty(t[2]))
         return "_"
 
     # -- monad helpers -------------------------------------------------------
@@ -587,9 +602,14 @@ class Emitter:
                 return hook(self, e, base, bty, env1, k)
             elt = bty[1] if bty[0] == "list" else UNKNOWN
             if e.idx.kind == "range":
+                sl_fn, sl_ty = "slice", bty
+                if bty[0] == "struct" and self.v["structs"][bty[1]].get("index_range"):
+                    # optional struct key `index_range`: (slicing function, type of the slice)
+                    sl_fn, sl_ty = self.v["structs"][bty[1]]["index_range"]
+
                 def with_lo(lo, env2):
                     def with_hi(hi, env3):
-                        return self.bind("slice %s %s %s" % (base, lo, hi), bty, env3, k, hint="sl")
+                        return self.bind("%s %s %s %s" % (sl_fn, base, lo, hi), sl_ty, env3, k, hint="sl")
                     if e.idx.hi is None:
                         return with_hi("(len %s)" % base, env2)
                     if e.idx.incl:
@@ -636,6 +656,10 @@ class Emitter:
         return (e.kind == "call" and e.f.kind == "path" and e.f.segs[-2:] == ["Default", "default"] and not e.args)
 
     def e_assign(self, e, env, k):
+        # the type of a plain assigned variable, for vocabulary callables that need it (`Default::default()`)
+        self.assign_ty = None
+        if e.op == "=" and e.lhs.kind == "path" and len(e.lhs.segs) == 1 and env.get(e.lhs.segs[0]) is not None:
+            self.assign_ty = env.get(e.lhs.segs[0]).ty
         if e.op == "=" and self.default_call(e.rhs) and "defaults" in self.v:
             # `place = Default::default()`: the value is chosen by the type of the place
             # (optional vocabulary key defaults: {repr(type): term})
@@ -980,6 +1004,9 @@ class Emitter:
             if ty[0] == "res" and name in ("Ok", "Err"):
                 inner = ty[1] if name == "Ok" else ("coq", self.v["result"]["err"])
                 name = "inl" if name == "Ok" else "inr"
+            if ty[0] == "result" and self.res_ind():
+                inner = ty[2] if name == "Err" else ty[1]
+                name = self.v["result"]["err" if name == "Err" else "ok"]
             return "(%s %s)" % (name, " ".join(self.coq_pattern(x, inner, binds) for x in p.elems))
         if k == "ptuple":
             tys = ty[1] if ty[0] == "tuple" and len(ty[1]) == len(p.elems) else [UNKNOWN] * len(p.elems)
@@ -998,6 +1025,9 @@ class Emitter:
         if k == "pident":
             binds.append((p.name, term, ty, p.mut))
             return None if p.sub is None else self.pat_test(p.sub, term, ty, binds)
+        if k == "plit" and getattr(p, "lk", None) in ("str", "bstr"):
+            # string literal pattern: decidable equality of the scrutinee's type (vocabulary `eqb`)
+            return "(%s %s [%s])" % (self.eqb_of(ty), term, "; ".join(str(b) for b in p.val))
         if k == "plit":
             if not is_int(ty):
                 ty = INT("usize")
@@ -1023,6 +1053,102 @@ class Emitter:
         if k == "ptuple":
             raise EmitError("nested tuple pattern in an if-chain match")
         raise EmitError("pattern %s in an if-chain match" % k)
+
+    # constructor patterns holding literals (`(Some(5), Some(x))`): neither a native Gallina match nor
+    # an if-chain; arm by arm `match .. with | pattern => if tests then body else <next arms> | _ => <next arms> end`
+    def needs_hybrid(self, arms, ncomp):
+        def has_ctor(p):
+            while p.kind == "pref":
+                p = p.inner
+            if p.kind == "ptstruct":
+                return True
+            if p.kind == "ptuple":
+                return any(has_ctor(x) for x in p.elems)
+            if p.kind == "por":
+                return any(has_ctor(x) for x in p.alts)
+            return False
+        return any(has_ctor(p) for p, _g, _b in arms)
+
+    def hybrid_pat(self, p, ty, binds, tests, term=None):
+        """Gallina pattern for p (variables for literals, tested afterwards); `term` is given for a
+        top-level component, whose plain identifier pattern binds the scrutinee itself"""
+        while p.kind == "pref":
+            p = p.inner
+        k = p.kind
+        if k == "pwild":
+            return "_"
+        if k == "pident" and p.sub is None:
+            if term is not None:
+                binds.append((p.name, term, ty, p.mut))
+                return "_"
+            n = self.fresh(p.name)
+            binds.append((p.name, n, ty, p.mut))
+            return n
+        if k in ("plit", "prange") or (k == "por" and all(x.kind in ("plit", "prange") for x in p.alts)):
+            if term is not None:
+                t = self.pat_test(p, term, ty, [])
+                tests.append(t)
+                return "_"
+            n = self.fresh("x")
+            tests.append(self.pat_test(p, n, ty, []))
+            return n
+        if k == "ppath":
+            return self.coq_pattern(p, ty, binds)
+        if k == "ptstruct":
+            name = p.segs[-1]
+            if name not in ("Some", "Ok", "Err") or len(p.elems) != 1:
+                raise EmitError("constructor pattern %s" % "::".join(p.segs))
+            inner = ty[1] if ty[0] == "opt" else UNKNOWN
+            if ty[0] == "result" and self.res_ind():
+                inner = ty[2] if name == "Err" else ty[1]
+                name = self.v["result"]["err" if name == "Err" else "ok"]
+            return "(%s %s)" % (name, self.hybrid_pat(p.elems[0], inner, binds, tests))
+        if k == "ptuple":
+            tys = ty[1] if ty[0] == "tuple" and len(ty[1]) == len(p.elems) else [UNKNOWN] * len(p.elems)
+            return "(" + ", ".join(self.hybrid_pat(x, t, binds, tests) for x, t in zip(p.elems, tys)) + ")"
+        raise EmitError("pattern %s in a constructor-and-literal match" % k)
+
+    def match_hybrid(self, arms, terms, tys, env1, kk):
+        def arm(j):
+            if j == len(arms):
+                return "None (* no arm matches: unreachable in Rust (exhaustive match) *)"
+            p, g, body = arms[j]
+            while p.kind == "pref":
+                p = p.inner
+            binds, tests = [], []
+            if len(terms) > 1:
+                if p.kind == "pwild":
+                    pats = ["_"] * len(terms)
+                elif p.kind == "ptuple" and len(p.elems) == len(terms):
+                    pats = [self.hybrid_pat(x, t, binds, tests, tm) for x, t, tm in zip(p.elems, tys, terms)]
+                else:
+                    raise EmitError("arm pattern does not match the tuple scrutinee")
+            else:
+                pats = [self.hybrid_pat(p, tys[0], binds, tests, terms[0])]
+            env2 = env1
+            for rn, cn, t, mut in binds:
+                env2 = env2.bind(rn, cn, t, mut)
+            if g is not None:
+                pg = self.try_pure(g, env2)
+                if pg is None:
+                    raise EmitError("match guard that can panic")
+                tests.append(pg[0])
+            bcode = self.expr(body, env2, kk)
+            refutable = any(x != "_" for x in pats)
+            if not tests and not refutable:
+                return bcode
+            nxt = arm(j + 1)
+            pre = ""
+            if tests and refutable and "\n" in nxt:
+                n = self.fresh("next")
+                pre = "let %s := fun (_ : unit) =>\n%s in\n" % (n, ind(nxt, 4))
+                nxt = "%s tt" % n
+            inner = bcode if not tests else "if %s then\n%s\nelse\n%s" % (" && ".join(tests), ind(bcode), ind(nxt))
+            if not refutable:
+                return pre + inner
+            return pre + "match %s with\n| %s =>\n%s\n| %s =>\n%s\nend" % (
+                ", ".join(terms), ", ".join(pats), ind(inner, 4), ", ".join("_" for _ in terms), ind(nxt, 4))
+        return arm(0)
 
     def const_term(self, segs):
         c = self.v.get("consts", {}).get(segs[-1])
@@ -1070,6 +1196,9 @@ class Emitter:
                 return self.join_branches(env1, k, build)
             if len(comps) == 1 and tys[0][0] == "res":
                 return self.join_branches(env1, k, lambda kk: self.match_result(e, terms[0], tys[0], env1, kk))
+            if self.needs_hybrid(e.arms, len(comps)):
+                return self.join_branches(env1, k, lambda kk: self.match_hybrid(e.arms, terms, tys, env1, kk))
+
             # if-chain
             def build(kk):
                 def arm(j):
@@ -1207,10 +1336,15 @@ class Emitter:
         if f.kind != "path":
             raise EmitError("call of a non-path expression")
         name = f.segs[-1]
-        if len(f.segs) == 1 and name in ("Ok", "Err") and self.v.get("result"):
+        if len(f.segs) == 1 and name in ("Ok", "Err") and self.res_sum():
             if name == "Ok":
                 return self.expr(e.args[0], env, lambda t, ty, env1: k("(inl %s)" % t, ("res", ty), env1))
             return self.expr(e.args[0], env, lambda t, ty, env1: k("(inr %s)" % t, ("res", UNKNOWN), env1))
+        if len(f.segs) == 1 and name in ("Ok", "Err") and self.res_ind() and len(e.args) == 1:
+            rv = self.v["result"]
+            if name == "Ok":
+                return self.expr(e.args[0], env, lambda t, ty, env1: k("(%s %s)" % (rv["ok"], t), ("result", ty, UNKNOWN), env1))
+            return self.expr(e.args[0], env, lambda t, ty, env1: k("(%s %s)" % (rv["err"], t), ("result", UNKNOWN, ty), env1))
         if len(f.segs) == 1 and name in ("Some", "Ok"):
             return self.expr(e.args[0], env, lambda t, ty, env1: k("(Some %s)" % t, ("opt", ty), env1))
         key = "::".join(f.segs[-2:]) if len(f.segs) >= 2 else name
